@@ -694,6 +694,32 @@ func (env *SpecEnv) evalCall(x *SCall) Val {
 			env.fail("dbmap() of a non-database value")
 		}
 		return MapV{M: in.dbCell(d.T), Nil: TFalse}
+	case "bput", "bdel", "bval":
+		// net effect of a (pending) write batch on key k
+		argn(2)
+		bv := env.eval(x.Args[0])
+		if p, ok := bv.(PtrV); ok {
+			bv = in.load(env.st, p.To, env.f)
+		}
+		b, ok := bv.(BatchV)
+		if !ok {
+			env.fail("%s() of a non-batch value %T", name, bv)
+		}
+		k := env.asStr(env.eval(x.Args[1]))
+		touched, isPut, val := batchEffect(b, k)
+		switch name {
+		case "bput":
+			return Sc{And(touched, isPut)}
+		case "bdel":
+			return Sc{And(touched, Not(isPut))}
+		}
+		if val.S == "" {
+			val = in.strLit("")
+		}
+		return Sc{val}
+	case "cat":
+		argn(2)
+		return Sc{App("sconcat", SStr, env.asStr(env.eval(x.Args[0])), env.asStr(env.eval(x.Args[1])))}
 	case "dbhealthy":
 		argn(1)
 		d, ok := env.eval(x.Args[0]).(Sc)
